@@ -62,7 +62,7 @@ func init() {
 // sigma is the component alphabet.  "" yields `//`, a trailing `/` and (as the
 // first component of a relative form) a path rooted at the real `/`.
 var sigma = []string{".", "..", "", "sub", "deep", "in.lisp", "secret.lisp", "lnk_in", "lnk_out",
-	"dlnk_out", "dlnk_in", "dl2", "up", "loop", "abs_out", "back", "rootx", "outside", "root", "rootlink"}
+	"dlnk_out", "dlnk_in", "dl2", "up", "loop", "abs_out", "back", "rootx", "outside", "root", "rootlink", "ROOT"}
 
 type formCfg struct {
 	ID, Pre, Suf string
@@ -176,7 +176,7 @@ func loaderLoc(family, rel string) string {
 // directory (abs_out, back, loop, rootlink and secret.lisp only matter as the
 // last or second component and are covered by the shorter sequences).
 var sigmaDeep = []string{".", "..", "", "sub", "deep", "in.lisp", "lnk_in", "lnk_out",
-	"dlnk_out", "dlnk_in", "dl2", "up", "rootx", "outside", "root"}
+	"dlnk_out", "dlnk_in", "dl2", "up", "rootx", "outside", "root", "ROOT"}
 
 // seqBlock is "every sequence of exactly Len components over Alpha".
 type seqBlock struct {
